@@ -26,6 +26,12 @@ pub fn run_prop(ctx: &Ctx, sink: &mut Sink) {
     materialize(&dir, &fixed_tree());
     let world = observe_root(b"t", &dir.join("t"));
     let roots = vec![(b"t".to_vec(), world)];
+    // a second starting point whose walk reports an error under -L (a link closing a cycle): once -quit has
+    // been evaluated nothing of a later starting point is evaluated, whatever the status of the earlier one
+    materialize(&dir, &Spec::Dir(b"u".to_vec(), vec![Spec::File(b"a".to_vec()), Spec::Link(b"loop".to_vec(), b".".to_vec()), Spec::File(b"c".to_vec()), Spec::Dir(b"d".to_vec(), vec![Spec::File(b"e".to_vec())])]));
+    let world_u = observe_root(b"u", &dir.join("u"));
+    let roots_ut = vec![(b"u".to_vec(), world_u.clone()), (b"t".to_vec(), roots[0].1.clone())];
+    let roots_mut = vec![(b"missing".to_vec(), "6d697373696e67=missing".to_string()), (b"u".to_vec(), world_u.clone()), (b"t".to_vec(), roots[0].1.clone())];
     let label = std::cell::Cell::new(0usize);
     let prim = |rng: &mut Rng| -> String {
         let r = rng.below(100);
@@ -66,8 +72,11 @@ pub fn run_prop(ctx: &Ctx, sink: &mut Sink) {
             g.list(&mut rng, 0, &mut toks);
         }
         let binary = i % 40 == 7;
-        let flag = *rng.pick(&["P", "P", "P", "L", "H"]);
-        let (req, imp) = run_case(ctx, &dir, flag, &roots, &toks, &mut rng, binary);
+        let mut flag = *rng.pick(&["P", "P", "P", "L", "H"]);
+        let multi = i % 7 == 3;
+        if multi && rng.chance(2, 3) { flag = "L"; }
+        let these = if multi { if rng.chance(1, 3) { &roots_mut } else { &roots_ut } } else { &roots };
+        let (req, imp) = run_case(ctx, &dir, flag, these, &toks, &mut rng, binary);
         let mut tags = vec!["wf"];
         if toks.iter().any(|t| t == "o" || t == "or") { tags.push("or"); }
         if toks.iter().any(|t| t == "comma") { tags.push("comma"); }
@@ -77,6 +86,7 @@ pub fn run_prop(ctx: &Ctx, sink: &mut Sink) {
         if toks.iter().any(|t| t == "prune") { tags.push("prune"); }
         if !toks.iter().any(|t| t.starts_with("lit:") || t.starts_with("vp:") || t.starts_with("print")) { tags.push("default-print"); }
         if binary { tags.push("binary"); }
+        if multi { tags.push("several-starting-points"); }
         if toks.len() >= 3 { tags.push("nt"); }
         sink.push(Case { req, imp, tags });
     }
